@@ -152,6 +152,16 @@ def insert_later(root_spec, path, pos, how):
         t.children.extend([dep])
     elif how == "iadd":
         t.children += [dep, MetadataNode()]
+    elif how == "with-block":
+        import sys
+        saved = sys.displayhook
+        sys.displayhook = lambda v: None
+        try:
+            with t:
+                sys.displayhook(dep)                 # appended at the end of t
+                sys.displayhook(MetadataNode())
+        finally:
+            sys.displayhook = saved
     elif how == "expansion-dep":
         t.children[pos:pos] = [Tagif(["D", "late", "1.0", {"script": {"src": "l.js"}}])]
     elif how == "expansion-list":
@@ -161,8 +171,8 @@ def insert_later(root_spec, path, pos, how):
     return x
 
 
-HOWS = ["insert", "insert-list", "slice-assign", "append", "extend", "iadd", "expansion-dep", "expansion-list",
-        "expansion-empty"]
+HOWS = ["insert", "insert-list", "slice-assign", "append", "extend", "iadd", "with-block", "expansion-dep",
+        "expansion-list", "expansion-empty"]
 
 
 def fn_later(case):
